@@ -14,7 +14,7 @@ from rv.monitors import counting_clock
 
 LEVEL = "fault_enumeration"
 RULE = ("per generated input (complete greedy: n <= 8, numbins 1..4, 5 objectives, sampled switch masks, zeros/ties/small classes; cbldm: n <= 10 with and without cardinality bound; "
-        "ckk generator: numbins 2..4, both managers) the interruption points are enumerated exhaustively with a counting clock (all limits 0..R+1 when R <= 400, else first/last 50, the neighbours of "
+        "ckk generator: numbins 2..4, both managers, plus a volume focus of ~10^5 cheap two-/three-way cases per run) the interruption points are enumerated exhaustively with a counting clock (all limits 0..R+1 when R <= 400, else first/last 50, the neighbours of "
         "every incumbent change and a seeded sample up to 400); evaluations = interrupted runs; non-trivial = inputs whose unlimited execution went through >= 2 incumbent improvements; "
         "distinct on (algorithm, config, numbins, values)")
 ASSUMPTIONS = ["interruption is only possible where the code reads the clock through a patchable module-level name; 0 reads => inconclusive",
@@ -309,6 +309,15 @@ JUDGES = {"cg": judge_cg, "cbldm": judge_cbldm, "ckkgen": judge_ckkgen}
 
 def run_shard(spec, rng, ctx):
     end = C.budget(spec)
+    # 30% of the budget: a volume focus on the CKK generator (cheap two- and three-way cases with mid-sized values: a generator that discards a heap it
+    # wrongly believes it has seen ends on a non-optimal partition only on ~1e-5 of such inputs)
+    focus_end = C.now() + 0.3 * float(spec.get("budget_s", 60))
+    while C.now() < focus_end:
+        k = rng.choice([2, 2, 2, 2, 3])
+        n = rng.choice([7, 8, 8, 8, 9]) if k == 2 else rng.randint(6, 7)
+        judge_ckkgen({"kind": "ckkgen", "alg": "ckkgen", "k": k, "values": [rng.randint(5, 30) for _ in range(n)], "cls": "generator_focus",
+                      "manager": rng.choice(["sums", "sums", "sums", "sums", "contents"])}, ctx, rng)
+        ctx.counters["generator_focus_cases"] += 1
     i = 0
     while C.now() < end:
         case = draw(rng, i)
